@@ -125,6 +125,8 @@ func ruleEligibility(c *report.Ctx, which string) {
 func runC02(c *report.Ctx) {
 	p := c.P
 	ruleEligibility(c, "all")
+	ruleExplicitInputsDistinct(c)
+	rulePayloadBeforeFeeLoop(c)
 
 	// ---- reservation ---------------------------------------------------------------
 	c.Rule("reservation", "every success return of a Create* method passes MarkUsedUTXO, so a second draft cannot select the same coins", 4)
